@@ -28,6 +28,7 @@ type envState struct {
 	taskGates []string
 	curTask   *task
 	parkTasks bool
+	anyTaskOrder bool // pending goroutines may complete in any order (default: spawn order)
 	seq       int
 }
 
@@ -293,6 +294,9 @@ func (p *Path) selectOp(fr *Frame, x *ssa.Select) Value {
 		ntasks := 0
 		if e.inTask == 0 && len(e.tasks) > 0 {
 			ntasks = 1
+			if e.anyTaskOrder {
+				ntasks = len(e.tasks) // any pending goroutine may complete next
+			}
 		}
 		// the environment may also stay silent forever: if only shutdown could still happen and no
 		// goroutine is pending, "idle" is one more alternative (the harness's liveness oracle runs)
@@ -323,7 +327,7 @@ func (p *Path) selectOp(fr *Frame, x *ssa.Select) Value {
 			p.quiescent("environment stays silent")
 		}
 		if c >= len(ready) {
-			p.runTask(0)
+			p.runTask(c - len(ready))
 			continue // re-evaluate readiness with the task's effects
 		}
 		idx := ready[c]
@@ -449,6 +453,10 @@ func init() {
 	reg("verif_EnvLimit", func(p *Path, fn *ssa.Function, a []Value) Value {
 		cv := a[0].(IfaceV).v.(ChanV)
 		cv.ch.envLimit = cv.ch.envCount + p.concreteInt(a[1], "limit")
+		return nil
+	})
+	reg("verif_AnyTaskOrder", func(p *Path, fn *ssa.Function, a []Value) Value {
+		p.envst().anyTaskOrder = a[0].(*Term).bval
 		return nil
 	})
 	reg("verif_ParkBlockedTasks", func(p *Path, fn *ssa.Function, a []Value) Value {
